@@ -477,3 +477,107 @@ func TestC01WitnessRescanBytes(t *testing.T) {
 	same("plain Where with expression (reference)", q.Table("owners").Where("title = (?)", expr()).Find(&[]map[string]interface{}{}))
 	same("relation join ON with expression", q.Model(&chains.Item{}).Unscoped().Joins("Owner", q.Where("Owner.title = (?)", expr())).Find(&[]chains.Item{}))
 }
+
+// ---- statements derived from one reusable handle -----------------------------------------------------
+
+// TestC01Reuse: two statements A and B are derived from one reusable handle
+// h = db.Where(p).Session(&gorm.Session{}) in a single goroutine: either one
+// after the other (dry run: the values A exposes must still be A's after B was
+// built) or nested (B is built and run from h while A is being built, by a
+// gorm.Valuer argument of A). Each statement must bind exactly the values its
+// own chain supplies.
+func TestC01Reuse(t *testing.T) {
+	evid.Rule(rule)
+	rapid.Check(t, func(rt *rapid.T) {
+		cfg := genConfig(true)
+		a := chains.Gen(rt, cfg)
+		p := chains.GenPrefix(rt, cfg, a)
+		if p == nil {
+			a = &chains.Chain{Kind: "query", Base: "item", Fin: "find"}
+			p = chains.GenPrefix(rt, cfg, a)
+			if p == nil {
+				rt.Skip("no prefix condition")
+			}
+		}
+		b := chains.GenSibling(rt, cfg, a)
+		variant := rapid.SampledFrom([]string{"sequential-dry", "nested-dry", "nested-real"}).Draw(rt, "variant")
+		if a.NoExec && variant == "nested-real" {
+			variant = "nested-dry"
+		}
+		pa, pb := a.WithPrefix(p), b.WithPrefix(p)
+		if variant != "sequential-dry" {
+			a, pa = a.WithReenter(7654321), pa.WithReenter(7654321)
+		}
+		desc := fmt.Sprintf("reuse %s h=db.Where(%s).Session() A=%s B=%s", variant, p.U.String(), a.String(), b.String())
+		evid.Journal(desc)
+		info := pa.Describe(variant == "nested-real")
+		classes := append(chains.SortedKeys(info.Classes), "reuse:"+variant)
+
+		check := func(what string, sql string, got, want []interface{}) {
+			if i := chains.SameAll(want, got); i >= 0 {
+				rt.Fatalf("C01 violated (reusable handle): statement %s binds values that are not the ones its chain supplies (first difference at %d)\n  case: %s\n  text: %s\n  bound:    %s\n  expected: %s", what, i, desc, sql, chains.Render(got), chains.Render(want))
+			}
+		}
+		if variant == "nested-real" {
+			d := testdb.Open(testdb.Options{Config: gorm.Config{NowFunc: fixedNow}})
+			defer d.Close()
+			if err := chains.Prepare(d.SQL); err != nil {
+				rt.Fatalf("harness: %v", err)
+			}
+			h := chains.ApplyPrefix(d.DB, p).Session(&gorm.Session{})
+			d.Rec.Reset()
+			var txB *gorm.DB
+			chains.ReenterHook = func() { txB = b.ApplyFrom(h, d.DB) }
+			txA := a.ApplyFrom(h, d.DB)
+			chains.ReenterHook = nil
+			stmts := d.Rec.Statements()
+			evid.Case(desc, len(stmts) == 2, nil, classes...)
+			if txB == nil || !allowedError(a, txA.Error, false) || txB.Error != nil || len(stmts) != 2 {
+				rt.Fatalf("C01 violated (reusable handle): expected the nested statement and the outer one to run (errors %v / %v, %d statements)\n  case: %s", txA.Error, txB, len(stmts), desc)
+			}
+			m := chains.Mode{LiteralLimit: true, Now: fixedNow()}
+			for i, want := range [][]interface{}{pb.Expected(m), pa.Expected(m)} {
+				args := make([]interface{}, len(stmts[i].Args))
+				for k, x := range stmts[i].Args {
+					args[k] = chains.Norm(x.Value)
+				}
+				if n := chains.CountQ(stmts[i].Text); n != len(args) {
+					rt.Fatalf("C01 violated (reusable handle): %d placeholders for %d arguments in %s\n  case: %s", n, len(args), stmts[i].Text, desc)
+				}
+				check([]string{"B (nested)", "A (outer)"}[i], stmts[i].Text, args, want)
+			}
+			return
+		}
+		_, n := dry()
+		h := chains.ApplyPrefix(n, p).Session(&gorm.Session{})
+		var txA, txB *gorm.DB
+		if variant == "sequential-dry" {
+			txA = a.ApplyFrom(h, n)
+			txB = b.ApplyFrom(h, n)
+		} else {
+			chains.ReenterHook = func() { txB = b.ApplyFrom(h, n) }
+			txA = a.ApplyFrom(h, n)
+			chains.ReenterHook = nil
+		}
+		nA := 0
+		if txA != nil {
+			nA = len(txA.Statement.Vars)
+		}
+		evid.Case(desc, nA >= 1 && txB != nil && len(txB.Statement.Vars) >= 1, nil, classes...)
+		if txB == nil || !allowedError(a, txA.Error, true) || !allowedError(b, txB.Error, true) {
+			rt.Fatalf("C01 violated (reusable handle): building failed (%v / %v)\n  case: %s", txA.Error, txB, desc)
+		}
+		m := chains.Mode{Now: fixedNow()}
+		for _, x := range []struct {
+			what string
+			tx   *gorm.DB
+			want []interface{}
+		}{{"A", txA, pa.Expected(m)}, {"B", txB, pb.Expected(m)}} {
+			sql, vars := x.tx.Statement.SQL.String(), chains.NormAll(x.tx.Statement.Vars)
+			if msg := chains.CheckNumbered(sql, len(vars)); msg != "" {
+				rt.Fatalf("C01 violated (reusable handle): statement %s: %s\n  case: %s\n  text: %s", x.what, msg, desc, sql)
+			}
+			check(x.what, sql, vars, x.want)
+		}
+	})
+}
